@@ -34,7 +34,9 @@ ASSUMPTIONS = [
 VERS = {"1.0": ssl.TLSVersion.TLSv1, "1.1": ssl.TLSVersion.TLSv1_1, "1.2": ssl.TLSVersion.TLSv1_2, "1.3": ssl.TLSVersion.TLSv1_3}
 SERVER_ROWS = ["std-ctx", "std-ctx-clientcert", "pyo-ctx", "pyo-ctx-clientcert", "selfsigned-std", "selfsigned-std-cc",
                "selfsigned-pyo", "start-supplied", "start-supplied-rules", "start-auto", "start-auto-rules",
-               "start-require-client-cert", "start-mismatched-key", "start-mismatched-key-rules", "start-malformed-key"]
+               "start-require-client-cert", "start-mismatched-key", "start-mismatched-key-rules", "start-malformed-key",
+               "std-ctx-weak", "pyo-ctx-weak", "pyo-ctx-clientcert-weak", "start-supplied-weak", "start-supplied-weak-rules"]
+UNUSABLE = ("mismatched", "malformed", "weak")  # rows whose certificate/key pair the TLS library rejects as configured
 GEMINI_RESP = re.compile(rb"(^|\n)[1-6][0-9] [^\r\n]*\r\n")
 
 
@@ -60,8 +62,10 @@ async def _build_row(loop, row, counter):
     from nauyaca.server import server as srv
     from nauyaca.server.tls_protocol import TLSServerProtocol
 
-    c = certs.get("rsa-a")
+    c = certs.get("rsa-weak" if row.endswith("weak") or "-weak-" in row else "rsa-a")
     app = _spy_factory(counter)
+    if row.endswith("-weak") and not row.startswith("start-"):
+        row = row[: -len("-weak")]
     if row == "std-ctx":
         return app, create_server_context(c.cert_path, c.key_path), None
     if row == "std-ctx-clientcert":
@@ -102,7 +106,12 @@ async def _build_row(loop, row, counter):
                            require_client_cert="require" in row)
     else:
         cfg = ServerConfig(host="127.0.0.1", port=1965, document_root=root)
-    if row.endswith("rules"):
+    if "acl-denied" in row:
+        # the harness peer's address is on the deny list
+        cfg.enable_access_control = True
+        cfg.access_control_deny_list = ["192.0.2.7"]
+        kw["access_control_config"] = cfg.get_access_control_config()
+    if row.endswith("rules") or "rules-" in row:
         kw["certificate_auth_config"] = CertificateAuthConfig(path_rules=[CertificateAuthPathRule(prefix="/admin/", require_cert=True)])
     old = tempfile.tempdir
     tempfile.tempdir = scratch.subdir("c20-tmp")
@@ -153,14 +162,7 @@ def run_server(case: dict):
                              f"(ssl_context={getattr(probe, 'ssl_context', None)!r}): the listener would speak plaintext")
         cctx = memnet.permissive_client_ctx(VERS[vn], VERS[vn], seclevel0=True)
         conn = memnet.ServerConn(loop, factory, sslctx, cctx)
-        raw = bytearray()
-        orig = conn._from_server
-
-        def tap(data):
-            raw.extend(data)
-            orig(data)
-
-        conn.tcp.on_bytes = tap
+        raw = conn.raw_tx
         hs = await conn.handshake()
         if hs:
             await conn.request(b"gemini://localhost/\r\n")
@@ -176,7 +178,7 @@ def run_server(case: dict):
     except _NoTls as e:
         return viol("listener-without-tls", f"{case['row']}: {e}")
     except Exception as e:
-        if "mismatched" in case["row"] or "malformed" in case["row"]:
+        if any(w in case["row"] for w in UNUSABLE):
             return ok(refused_to_start=type(e).__name__)  # an unusable key pair must prevent start-up
         raise
     plain = bytes(conn.client.plain)
@@ -193,7 +195,7 @@ def run_server(case: dict):
             return viol("gemini-response-without-tls12", f"{raw[:60]!r}", **info)
         return ok(**info)
     if not hs:
-        if "mismatched" in case["row"] or "malformed" in case["row"]:
+        if any(w in case["row"] for w in UNUSABLE):
             return ok(unusable_key_pair="no handshake completes", **info)  # no service at all is not a C20 matter
         return viol("tls12plus-refused", f"{case['row']} refused TLS {vn}: {conn.client.error!r}", **info)
     spy_row = not case["row"].startswith("start-")  # captured assemblies serve through their own static handler
@@ -293,7 +295,8 @@ def plaintext_case(draw):
         data = b"gemini://localhost/" + b"a" * draw(st.integers(0, 3000)) + b"\r\n"
     n = len(data)
     cuts = sorted(set(draw(st.lists(st.integers(1, max(1, n - 1)), max_size=3)))) if n > 1 else []
-    return {"data": b2s(data), "cuts": cuts, "backend": draw(st.sampled_from(["stdlib", "pyopenssl"]))}
+    return {"data": b2s(data), "cuts": cuts, "backend": draw(st.sampled_from(["stdlib", "pyopenssl", "start-supplied-acl-denied",
+                                                                              "start-supplied-rules-acl-denied", "start-auto-rules"]))}
 
 
 def run_plain(case: dict):
@@ -302,14 +305,18 @@ def run_plain(case: dict):
     data = s2b(case["data"])
 
     async def scenario(loop):
-        factory, sslctx, _ = await _build_row(loop, "std-ctx" if case["backend"] == "stdlib" else "pyo-ctx-clientcert", counter)
+        row = {"stdlib": "std-ctx", "pyopenssl": "pyo-ctx-clientcert"}.get(case["backend"], case["backend"])
+        import tempfile as _tf
+
+        factory, sslctx, task = await _build_row(loop, row, counter)
         conn = memnet.ServerConn(loop, factory, sslctx, memnet.permissive_client_ctx())
-        raw = bytearray()
-        conn.tcp.on_bytes = lambda d: raw.extend(d)
+        raw = conn.raw_tx
         conn.feed_cipher(data, case["cuts"])
         await vloop.settle(6)
         await asyncio.sleep(200)
         await vloop.settle(4)
+        if task:
+            task.cancel()
         return conn, bytes(raw)
 
     conn, raw = vloop.run(scenario)
@@ -353,7 +360,12 @@ def _live_port(row: str) -> int:
     else:
         cfg = ServerConfig(host="127.0.0.1", port=port, document_root=root)
     kw = {}
-    if row.endswith("rules"):
+    if "acl-denied" in row:
+        # the harness peer's address is on the deny list
+        cfg.enable_access_control = True
+        cfg.access_control_deny_list = ["192.0.2.7"]
+        kw["access_control_config"] = cfg.get_access_control_config()
+    if row.endswith("rules") or "rules-" in row:
         kw["certificate_auth_config"] = CertificateAuthConfig(path_rules=[CertificateAuthPathRule(prefix="/admin/", require_cert=True)])
     old = tempfile.tempdir
     tempfile.tempdir = scratch.subdir("c20-live-tmp")
